@@ -58,10 +58,12 @@ def describe_exc(et, ev, tb):
     pkg = os.path.dirname(os.path.abspath(cherrypy.__file__))
     inner = None
     last = None
+    last_file = None
     while tb is not None:
         co = tb.tb_frame.f_code
         fn = os.path.abspath(co.co_filename)
         last = (os.path.splitext(os.path.basename(fn))[0], co.co_name)
+        last_file = fn
         if fn.startswith(pkg + os.sep):
             rel = os.path.relpath(fn, pkg)
             inner = (os.path.splitext(rel)[0].replace(os.sep, '.'), co.co_name)
@@ -69,7 +71,9 @@ def describe_exc(et, ev, tb):
     mod, func = inner or last or ('?', '?')
     # a ValueError born inside urllib.parse / ipaddress = urllib refusing the Host-derived netloc
     netloc = et is ValueError and last is not None and last[0] in ('parse', 'ipaddress')
-    return {'module': mod, 'function': func, 'exc': et.__name__, 'netloc': netloc,
+    # an exception born inside the server's reader object (wsgi.input of cheroot: malformed chunked framing, size limit)
+    rfile = last_file is not None and (os.sep + 'cheroot' + os.sep) in last_file
+    return {'module': mod, 'function': func, 'exc': et.__name__, 'netloc': netloc, 'rfile': rfile,
             'mro': [c.__name__ for c in et.__mro__ if c not in (object, BaseException)],
             'msg': str(ev)[:160]}
 
@@ -119,6 +123,10 @@ class Root(object):
     @cherrypy.expose
     def args(self, a, b='x'):
         return b'args'
+
+    @cherrypy.expose
+    def enc(self, *args, **kw):          # tools.encode over a text body every charset of the fallback chain can encode
+        return 'h\xe9llo ' * 4
 
     @cherrypy.expose
     def limit(self, *args, **kw):        # request.body.maxbytes = 1000
@@ -388,6 +396,7 @@ def setup():
         '/rest': {'request.dispatch': cherrypy.dispatch.MethodDispatcher()},
         '/tsx': {'tools.trailing_slash.extra': True},
         '/limit': {'request.body.maxbytes': 1000},
+        '/enc': {'tools.encode.on': True},
         '/lcache': {'tools.caching.on': True, 'tools.caching.antistampede_timeout': 0.001, 'tools.etags.on': True,
                     'tools.etags.autotags': True},
         '/szip': {'tools.staticdir.on': True, 'tools.staticdir.dir': static, 'tools.staticdir.index': 'index.html',
@@ -457,6 +466,46 @@ _COMMA = {'accept', 'accept-charset', 'accept-encoding', 'accept-language', 'acc
           'vary', 'via', 'warning', 'www-authenticate'}
 
 
+class _InjectingReader(object):
+    """wsgi.input whose read methods call `hook` (fault injection at the server's reader object)."""
+
+    def __init__(self, hook):
+        self.hook = hook
+
+    def read(self, size=None):
+        return self.hook()
+
+    def readline(self, size=None):
+        return self.hook()
+
+    def readlines(self, hint=None):
+        return self.hook()
+
+    def close(self):
+        pass
+
+
+def make_input(case, body, headers):
+    """wsgi.input: a plain byte stream, or - `rfile` - what CherryPy's own server (cheroot) hands over: a
+    KnownLengthRFile limited to the declared length, or a ChunkedRFile de-chunking the raw wire bytes (with the
+    server's body size limit `maxlen`)."""
+    kind = case.get('rfile')
+    if kind == 'inject':
+        return _InjectingReader(case['_hook'])
+    if kind in ('known', 'chunked'):
+        try:
+            import cheroot.server as cs
+            raw = io.BufferedReader(io.BytesIO(body))
+            if kind == 'chunked':
+                return cs.ChunkedRFile(raw, int(case.get('maxlen') or 0))
+            cl = dict((k.lower(), v) for k, v in headers).get('content-length', '')
+            if cl.isascii() and cl.isdigit() and len(cl) < 19:
+                return cs.KnownLengthRFile(raw, int(cl))
+        except ImportError:
+            pass
+    return io.BytesIO(body)
+
+
 def build_environ(case):
     body = case.get('body', '').encode('latin-1')
     env = {
@@ -478,6 +527,8 @@ def build_environ(case):
             env[key] = env[key] + ', ' + value
         else:
             env[key] = value
+    if case.get('rfile'):
+        env['wsgi.input'] = make_input(case, body, case.get('headers', []))
     return env
 
 
@@ -678,6 +729,9 @@ def signature(obs):
     if not e:
         return 'unknown:unknown:status%s' % obs.get('status')
     sig = '%s:%s:%s' % (e['module'], e['function'], e['exc'])
+    if e.get('rfile'):
+        # whichever SizedReader method was reading: the exception is the server reader's (K7)
+        return 'rfile:cheroot:%s' % e['exc']
     # urllib's complaints about the Host-derived netloc get their own mark, so that any other ValueError raised
     # in the same function is a different signature
     if e.get('netloc'):
